@@ -169,8 +169,10 @@ xattr_open_map_file(const char *path) {
 	}
 
 	map = calloc(1, sizeof(struct XattrMap));
-	if (map == NULL)
+	if (map == NULL) {
+		sqfs_perror(path, NULL, SQFS_ERROR_ALLOC);
 		goto fail_close;
+	}
 
 	for (;;) {
 		char *line = NULL;
